@@ -493,6 +493,10 @@ class Interp(object):
                 seq = self.expr(e.args[0], env)
                 return ('str', self.join(self.to_str(sep, 's', e), seq, e))
             base = self.expr(f.value, env)
+            if f.attr in ('upper', 'lower') and not e.args and base[0] == 'str':
+                t0 = base[1]
+                return ('str', Tmpl(L.rmap_case(t0.rx, f.attr == 'upper'), raw=getattr(t0, 'raw', ()), lossy=getattr(t0, 'lossy', ()),
+                                    notes=getattr(t0, 'notes', ())))
             if f.attr == 'isoformat' and not e.args and base[0] == 'obj':
                 form = {'date': 'date_iso', 'time': 'time_iso', 'datetime': 'datetime_iso_aware'}.get(base[1])
                 if form:
